@@ -79,14 +79,16 @@ Definition has_slot (c s : N) (i : nat) (o : obs) : list unit :=
 Definition thr_of (fchain : list (N * Z)) (k : N) : option N :=
   match alookup k fchain with Some f => Some (f_plus_1 f) | None => None end.
 
-Definition commits_ok (fchain : list (N * Z)) (aos : list ao) (out : list (N * list commit)) : bool :=
-  forallb (fun kl => match thr_of fchain (fst kl) with
-                     | None => false
-                     | Some thr => negb (match snd kl with [] => true | _ => false end) &&
-                                   nodupb commit_eqb (snd kl) &&
-                                   forallb (fun x => N.leb thr (support commit_eqb (commits_at (fst kl)) x aos)) (snd kl)
-                     end) out &&
-  forallb (fun kf => forallb (fun x => if N.leb (f_plus_1 (snd kf)) (support commit_eqb (commits_at (fst kf)) x aos)
+(* commit reports (repair of F75): under a configured chain key, reports OF that chain, each with f_dest+1 distinct
+   reporters; every report with that support is present *)
+Definition commits_ok (dest : N) (fchain : list (N * Z)) (aos : list ao) (out : list (N * list commit)) : bool :=
+  let thr := f_plus_1 (f_dest dest fchain) in
+  forallb (fun kl => memN (fst kl) (keys fchain) &&
+                     negb (match snd kl with [] => true | _ => false end) &&
+                     nodupb commit_eqb (snd kl) &&
+                     forallb (fun x => N.eqb (c_src x) (fst kl) &&
+                                       N.leb thr (support commit_eqb (commits_at (fst kl)) x aos)) (snd kl)) out &&
+  forallb (fun kf => forallb (fun x => if N.leb thr (support commit_eqb (commits_at (fst kf)) x aos)
                                        then existsb (commit_eqb x) (entries (fst kf) out) else true)
                              (all_items (commits_at (fst kf)) aos)) fchain.
 
@@ -136,7 +138,7 @@ Definition c07_ok (i : c07_in) (o : c07_out) : bool :=
   match snd o with
   | Ok (cs, ms, ts, ks, ns) =>
       negb (Z.ltb (Z.of_nat (length vaos)) bigF) &&
-      commits_ok fchain vaos cs && msgs_ok fchain vaos ms && tokens_ok fchain vaos ts &&
+      commits_ok dest fchain vaos cs && msgs_ok fchain vaos ms && tokens_ok fchain vaos ts &&
       costly_ok (f_dest dest fchain) vaos ks && nonces_ok (f_dest dest fchain) vaos ns
   | Err => Z.ltb (Z.of_nat (length vaos)) bigF    (* the only legitimate refusal *)
   | _ => false
@@ -165,31 +167,42 @@ Definition c07_judge := judge c07_model c07_oeqb c07_ok c07_known.
    the home chain's fChain, the attributed observations.  output: verdicts, (commit reports by id, chain -> seq -> message) *)
 Definition c07o_in := (N * Z * N * list (N * Z) * list (N * list N * obs))%type.
 Definition c07o_out := (list bool * res (list commit * list (N * list (N * msg))))%type.
+(* getCommitReportsOutcome drops an agreed report when another agreed report of its chain has the same root or an
+   overlapping interval (repair of F76; every report conflicts with itself) *)
+Definition c_conflicts (a b : commit) : bool :=
+  N.eqb (c_src a) (c_src b) && (N.eqb (c_root a) (c_root b) || overlaps (c_range a) (c_range b)).
+Definition drop_conflicting_c (l : list commit) : list commit :=
+  filter (fun x => Nat.leb (length (filter (c_conflicts x) l)) 1) l.
 Definition c07o_model (i : c07o_in) : c07o_out :=
   let '(phase, bigF, dest, fchain, aos) := i in
   let vals := map (fun a => validate (snd (fst a)) dest fchain (snd a)) aos in
   (vals, match get_consensus bigF dest fchain (accepted vals aos) with
          | Ok m => let '(cs, ms, _, _, _) := canon m in
-                   if N.eqb phase 1 then Ok (by_cid (flat_map snd cs), []) else Ok ([], ms)
+                   if N.eqb phase 1 then Ok (by_cid (drop_conflicting_c (flat_map snd cs)), []) else Ok ([], ms)
          | Err => Err | Panic => Panic | Spin => Spin end).
 Definition c07o_oeqb (a b : c07o_out) : bool :=
   list_eqb Bool.eqb (fst a) (fst b) &&
   res_eqb (fun x y => list_eqb commit_eqb (fst x) (fst y) && msgs_eq (snd x) (snd y)) (snd a) (snd b).
-(* a flattened commit report has f_k+1 distinct reporters under SOME chain key k it was filed under, and every report
-   with that support under a key is present *)
-Definition commits_flat_ok (fchain : list (N * Z)) (aos : list ao) (out : list commit) : bool :=
-  forallb (fun x => existsb (fun kf => existsb (commit_eqb x) (all_items (commits_at (fst kf)) aos) &&
-                                       N.leb (f_plus_1 (snd kf)) (support commit_eqb (commits_at (fst kf)) x aos)) fchain) out &&
-  forallb (fun kf => forallb (fun x => if N.leb (f_plus_1 (snd kf)) (support commit_eqb (commits_at (fst kf)) x aos)
-                                       then existsb (commit_eqb x) out else true)
-                             (all_items (commits_at (fst kf)) aos)) fchain.
+(* a flattened commit report has f_dest+1 distinct reporters under the key of its own source chain, and every report
+   with that support under a key is present, unless another such report of its chain has the same root or an overlapping
+   interval (then both are dropped: repair of F76) *)
+Definition agreed_at (dest : N) (fchain : list (N * Z)) (aos : list ao) (k : N) (x : commit) : bool :=
+  memN k (keys fchain) && existsb (commit_eqb x) (all_items (commits_at k) aos) &&
+  N.leb (f_plus_1 (f_dest dest fchain)) (support commit_eqb (commits_at k) x aos).
+Definition all_agreed (dest : N) (fchain : list (N * Z)) (aos : list ao) : list commit :=
+  flat_map (fun kf => filter (agreed_at dest fchain aos (fst kf)) (dedup commit_eqb (all_items (commits_at (fst kf)) aos))) fchain.
+Definition commits_flat_ok (dest : N) (fchain : list (N * Z)) (aos : list ao) (out : list commit) : bool :=
+  let agreed := all_agreed dest fchain aos in
+  forallb (fun x => agreed_at dest fchain aos (c_src x) x) out &&
+  forallb (fun x => if Nat.leb (length (filter (c_conflicts x) agreed)) 1
+                    then existsb (commit_eqb x) out else negb (existsb (commit_eqb x) out)) agreed.
 Definition c07o_ok (i : c07o_in) (o : c07o_out) : bool :=
   let '(phase, bigF, dest, fchain, aos) := i in
   let vaos := accepted (fst o) aos in
   match snd o with
   | Ok (cs, ms) =>
       negb (Z.ltb (Z.of_nat (length vaos)) bigF) &&
-      (if N.eqb phase 1 then commits_flat_ok fchain vaos cs && match ms with [] => true | _ => false end
+      (if N.eqb phase 1 then commits_flat_ok dest fchain vaos cs && match ms with [] => true | _ => false end
        else msgs_ok fchain vaos ms && match cs with [] => true | _ => false end)
   | Err => Z.ltb (Z.of_nat (length vaos)) bigF
   | _ => false
